@@ -112,7 +112,12 @@ class FileProxy:
 
 def patched_open(file, mode="r", *a, **k):
     if REC is not None and isinstance(file, (str, bytes, os.PathLike)) and any(c in mode for c in "wax+") and REC.inside(file):
-        REC.event("create", file, {"mode": mode})
+        def just_opened():
+            # "torn" variant of a create: the process dies right AFTER the (truncating) open and before the first byte is written --
+            # however the bytes would have been transferred (write calls, sendfile, copy_file_range)
+            if REC.torn:
+                REAL_OPEN(file, mode, *a, **k).close()
+        REC.event("create", file, {"mode": mode}, before=just_opened)
         return FileProxy(REAL_OPEN(file, mode, *a, **k), os.path.abspath(os.fsdecode(file)))
     return REAL_OPEN(file, mode, *a, **k)
 
@@ -158,6 +163,9 @@ def run_session(root, s):
                                  consistency_check=False, single_process=True)
 
 
+OTHER_TMP = [None]
+
+
 def child(root, session, log_path, kill_at, torn):
     global REC
     pid = os.fork()
@@ -165,6 +173,11 @@ def child(root, session, log_path, kill_at, torn):
         _, status = os.waitpid(pid, 0)
         return os.waitstatus_to_exitcode(status)
     try:
+        if OTHER_TMP[0]:
+            # the process's temporary directory lies on another file system than the dataset (TMPDIR on tmpfs): a "move" from there is not a rename
+            import tempfile as _tf
+            _tf.tempdir = OTHER_TMP[0]
+            os.environ["TMPDIR"] = OTHER_TMP[0]
         REC = Recorder(root, log_path, kill_at, torn)
         install()
         run_session(root, session)
@@ -235,6 +248,11 @@ def inspect(root, base_examples, new_examples):
 def run_job(job):
     tmp = Path(tempfile.mkdtemp(prefix="verif_crash_")).resolve()
     rng = random.Random(job.get("seed", 0))
+    OTHER_TMP[0] = None
+    other = None
+    if job.get("other_fs_tmp") and os.path.isdir("/dev/shm") and os.stat("/dev/shm").st_dev != os.stat(tmp).st_dev:
+        other = tempfile.mkdtemp(prefix="verif_crash_tmp_", dir="/dev/shm")
+        OTHER_TMP[0] = other
     try:
         base = tmp / "base" / "ds"
         ds = Dataset.create(path=base, metadata=Metadata(description="c"), dataset_structure=DatasetStructure(
@@ -276,7 +294,7 @@ def run_job(job):
         work = tmp / "work" / "ds"
         for k in points:
             ev = events[k - 1]
-            for torn in ([False, True] if ev["k"] == "write" and ev.get("n", 0) > 1 else [False]):
+            for torn in ([False, True] if (ev["k"] == "write" and ev.get("n", 0) > 1) or ev["k"] == "create" else [False]):
                 if work.exists():
                     shutil.rmtree(work)
                 shutil.copytree(base, work)
@@ -293,6 +311,9 @@ def run_job(job):
         return {"build_error": f"{type(ex).__name__}: {str(ex)[:300]} {traceback.format_exc()[-400:]}"}
     finally:
         shutil.rmtree(tmp, ignore_errors=True)
+        if other:
+            shutil.rmtree(other, ignore_errors=True)
+        OTHER_TMP[0] = None
 
 
 def snapshot_docs(root):
